@@ -79,6 +79,13 @@ def diff_specs(tier):
     for name, spec in families.c04_cells(tier):
         if ".fo." in name or name.endswith(".fo"):
             out.append(("C04." + name, spec))
+    # delayed assignment of an optional task + quantities that sum busy time
+    for di, eo in ((1, 0), (2, 1)):
+        out.append((f"delayed_workload.di{di}.eo{eo}", families.base(
+            5, [families.fx("o", 3, optional=True), families.fx("t1", 2)], workers=[{"name": "w0"}], requirements=[
+                {"task": "o", "resource": "w0", "delay_in": di, "early_out": eo}, {"task": "t1", "resource": "w0"}],
+            constraints=[{"id": "wl", "kind": "WorkLoad", "resource": "w0", "map": [[0, 5, 2]], "mode": "min"}],
+            indicators=[{"id": "u", "kind": "Utilization", "resource": "w0"}])))
     # buffers with an optional accessing task
     for conc in (False, True):
         for kind in ("TaskUnloadBuffer", "TaskLoadBuffer"):
